@@ -101,6 +101,13 @@ def check(ctx):
             seen.add((func, "O6", good))
             ctx.require(good, "C05.O6", f"{func} publishes '{lit}' to /robot/mode before its loop", f"{func}() publishes {[t[1] for t in names]} to {[t[2] for t in names][:1]} (expected '{lit}' on /robot/mode before the loop)", site=("magicbot/magicrobot.py", 0, func), key=f"C05.O6|{func}")
         arms = [t for t in toks if t[0] == "arm"]
+        waits = [j for j, t in enumerate(toks) if t[0] == "wait"]
+        if waits:
+            first_arm = next((j for j, t in enumerate(toks) if t[0] == "arm"), None)
+            fresh = first_arm is not None and first_arm < waits[0]
+            if (func, "O5f", fresh) not in seen:
+                seen.add((func, "O5f", fresh))
+                ctx.require(fresh, "C05.O5", f"{func}: the loop delay is armed in this call before its first wait()", f"{func}(): the first wait() of the mode loop is on a delay that was not armed in this call of {func}() (a delay object kept from an earlier mode is still on its old time grid: the first iterations run back to back)", site=("magicbot/magicrobot.py", 0, func), key=f"C05.O5|fresh|{func}")
         if pi.complete >= 1 and arms:
             v = arms[0][1]
             flow = cwt in fn.syms_in(v) if not isinstance(v, (int, str, type(None))) else False
